@@ -22,7 +22,7 @@ import (
 //	         relative strings (incl. "") and absolute strings with a ".."
 //	         element - of <= 2 (quick) / <= 3 (thorough) segments, plus Getwd
 //	         and the fixed Glob patterns;
-//	level 3 (thorough): as level 2 but only strings of <= 2 segments.
+//	level 3 (thorough): as level 2 but only strings of <= 1 segment.
 //
 // At a deeper level an operation that does not apply is answered by Step with
 // the outcome "n/a" without touching the system (counted apart).
@@ -167,7 +167,7 @@ func segCount(s string) int {
 // applied at level 1, 2, 3 (levels >= 2: reduced strings only).
 func tierSegs(tier string) []int {
 	if tier == "thorough" {
-		return []int{4, 3, 2}
+		return []int{4, 3, 1}
 	}
 
 	return []int{3, 2}
